@@ -26,6 +26,27 @@ def dup_names_model():
     return m
 
 
+def lut_chain(scales):
+    """QUANTIZE(to scale s) -> TANH for every s: one lookup table per distinct s (value-keyed constants of the process-wide memo)"""
+    net = nets.Net(0)
+    x = net.act([1, 4, 4, 8], "int8", name="input", q=(0.02, 0))
+    net.inputs.append(x)
+    net.open.append(x)
+    net.cur = x
+    for s in scales:
+        y = net.act([1, 4, 4, 8], "int8", q=(float(s), 0))
+        net.op("QUANTIZE", [net.cur], [y], ("QuantizeOptions", {}))
+        z = net.act([1, 4, 4, 8], "int8", q=(1 / 128, 0))
+        net.op("TANH", [y], [z], None)
+    return net.model()
+
+
+# cache-growth level: A_k leaves about k value-keyed constants in the process; B uses one table twice with 40 other new tables in between.
+# Any bound / eviction / flush of a process-wide memo at a size T <= 290 is crossed inside B for some k of the ladder (step 32 < 40).
+LUT_LADDER = list(range(24, 260, 32))
+LUT_B_SCALES = [0.5] + [0.2 + 0.003 * j for j in range(40)] + [0.5]
+
+
 MODELS = {
     "conv_logistic": lambda: nets.build(H(I8, ["conv3x3", "logistic"]), 0),
     "logistic": lambda: nets.build(H(I8, ["logistic"]), 0),
@@ -43,6 +64,9 @@ MODELS = {
     "cache_sensitive": lambda: nets.build(H(([1, 32, 32, 16], "int8"), ["conv3x3", "conv3x3", "conv3x3"]), 0),
     "hc_search_b": lambda: nets.build(H(([1, 16, 16, 8], "int8"), ["conv3x3", "add_res", "conv3x3v_relu6", "conv3x3v_relu6"]), 0),
 }
+GROWTH_MODELS = {"lut_b": lambda: lut_chain(LUT_B_SCALES)}
+for _k in LUT_LADDER:
+    GROWTH_MODELS["lut_a%d" % _k] = (lambda k: (lambda: lut_chain([0.011 + 0.0007 * i for i in range(k)])))(_k)
 TWO_CFG = """[System_Config.My_Sys]
 core_clock=500e6
 axi0_port=Sram
@@ -68,7 +92,7 @@ _model_bytes = {}
 
 def model_bytes(name):
     if name not in _model_bytes:
-        _model_bytes[name] = build.serialise(MODELS[name]())
+        _model_bytes[name] = build.serialise((MODELS.get(name) or GROWTH_MODELS[name])())
     return _model_bytes[name]
 
 
@@ -279,6 +303,25 @@ def run(ctx):
                 symptom = "%s@%s" % (r[1], r[2]) if r[0] == "exc" else ("different-bytes" if r[0] == "ok" else str(r[0]))
                 key = "history|%s|prev=%s/%s|last=%s/%s" % (symptom, prev[0], prev[1], h[-1][0], h[-1][1])
                 ctx.violation(key, "after %s, event %s gives %s; alone it gives %s" % (h[:-1], h[-1], describe(r), describe(ref)), dict(history=h))
+    # cache-growth level: a process-wide memo that is bounded / flushed at some size must not change what a later compilation produces
+    g_last = [("lut_b", "main", "ethos-u65-256"), ("lut_b", "convert_bytes", None)]
+    g_alone = {}
+    for out in pmap(_shard, [[[list(ev)]] for ev in g_last]):
+        for h, r in out:
+            g_alone[tuple(h[0])] = tuple(r)
+    g_hists = [[["lut_a%d" % k, e, a], list(last)] for k in LUT_LADDER for last in g_last for (e, a) in (("main", "ethos-u65-256"),)]
+    if not quick:
+        g_hists += [[["lut_a%d" % k1, "main", "ethos-u55-128"], ["lut_a%d" % k2, "convert_bytes", None], list(last)] for k1 in LUT_LADDER[:4] for k2 in LUT_LADDER[:4] for last in g_last]
+    for out in pmap(_shard, [[h] for h in g_hists]):
+        for h, r in out:
+            transitions += len(h)
+            r = tuple(r) if isinstance(r, (list, tuple)) else r
+            ref = g_alone[tuple(h[-1])]
+            ctx.count("growth_histories", 1)
+            if ref[0] != "ok":
+                ctx.violation("alone|%s" % "/".join(map(str, h[-1])), "event %s fails on its own: %s" % (h[-1], describe(ref)), dict(history=[h[-1]]))
+            elif r[:3] != ref[:3]:
+                ctx.violation("history|growth|last=%s/%s" % (h[-1][0], h[-1][1]), "after %s, event %s gives %s; alone it gives %s" % (h[:-1], h[-1], describe(r), describe(ref)), dict(history=h))
     # allocator level: the random search of the hill-climb allocator under different states of the global generator
     from . import c05
 
